@@ -132,10 +132,10 @@ func toRefPES(h *astits.PESHeader, sid uint8) *ref.PESHdr {
 		return r
 	}
 	r.Scrambling, r.Priority, r.Alignment, r.Copyright, r.Original = o.ScramblingControl, o.Priority, o.DataAlignmentIndicator, o.IsCopyrighted, o.IsOriginal
-	switch o.PTSDTSIndicator {
-	case astits.PTSDTSIndicatorOnlyPTS:
+	switch o.PTSDTSIndicator { // the values ISO 13818-1 assigns, not the library's names for them
+	case 2:
 		r.PTS = u64p(o.PTS)
-	case astits.PTSDTSIndicatorBothPresent:
+	case 3:
 		r.PTS, r.DTS = u64p(o.PTS), u64p(o.DTS)
 	case 1: // forbidden value: nothing follows; a timestamp decoded nevertheless is shown
 		r.Ind01 = true
